@@ -6,7 +6,7 @@
     C12, C07; type 5 = type 1 per element inside the C04 list codec); their end-to-end runs are executed, and their
     components proved in C04/C07/C12/C20, but the composed theorem is stated here for types 1 and 2 only (partial). *)
 From Coq Require Import Field Ring.
-From PatVerif Require Import Model.Issuance Proofs.IssuanceP.
+From PatVerif Require Import Model.Issuance Proofs.IssuanceP Proofs.TokenVerifyP Proofs.HashP Model.Quicwire Base.Hash.
 Open Scope N_scope.
 
 Section Type1.
@@ -81,3 +81,78 @@ Section Type2.
   Qed.
 End Type2.
 Print Assumptions honest_type2.
+
+Section Type5.
+  Variable F : Type.
+  Variables (f0 f1 : F) (fadd fmul fsub : F -> F -> F) (fopp : F -> F) (fdiv : F -> F -> F) (finv : F -> F).
+  Hypothesis Fth : field_theory f0 f1 fadd fmul fsub fopp fdiv finv (@eq F).
+  Variable h256 : list byte -> list byte.
+  Variable h2g : list byte -> F.
+  Variable enc_elt : F -> list byte.
+  Variable dec_elt : list byte -> option F.
+  Variable fin : list byte -> F -> list byte.
+  Variable prove_b : F -> list F -> list F -> list byte -> list byte.
+  Variable dleq_b_ok : F -> list F -> list F -> list byte -> bool.
+  Hypothesis h256_len : forall x, length (h256 x) = 32%nat.
+  Hypothesis dec_enc_elt : forall e, dec_elt (enc_elt e) = Some e.
+  Hypothesis enc_elt_len : forall e, length (enc_elt e) = 32%nat.                 (* ristretto255 *)
+  Hypothesis fin_len : forall i e, length (fin i e) = 64%nat.                     (* Nk = 64 *)
+  Hypothesis dleq_b_complete : forall k bs rnd,
+    dleq_b_ok (fmul k f1) bs (map (fmul k) bs) (prove_b k bs (map (fmul k) bs) rnd) = true.
+  Hypothesis proof_b_len : forall k bs evs rnd, length (prove_b k bs evs rnd) = 64%nat.
+
+  (** EVERY batch size (by induction on the list of nonces, up to the 2^62-1 bytes a varint can announce): the run
+      completes and yields, in order, one token per nonce: type || nonce_i || SHA-256(challenge) || key id ||
+      F(k, input_i) with a 64-byte authenticator *)
+  Theorem honest_type5 : forall k betas rnd nonces challenge keyid,
+    length keyid = 32%nat -> length betas = length nonces ->
+    Forall (fun n => length n = 32%nat) nonces -> Forall (fun b => b <> f0) betas ->
+    N.of_nat (32 * length nonces) <= Quicwire.max_varint ->
+    run5 F f1 fmul finv h256 h2g enc_elt dec_elt fin prove_b dleq_b_ok k betas rnd nonces challenge keyid
+      = Some (map (tok5 F fmul h256 h2g fin k challenge keyid) nonces).
+  Proof.
+    exact (honest_type5_l F f0 f1 fadd fmul fsub fopp fdiv finv Fth h256 h2g enc_elt dec_elt fin prove_b dleq_b_ok
+             h256_len dec_enc_elt enc_elt_len fin_len dleq_b_complete proof_b_len).
+  Qed.
+  (** each of these tokens verifies under the issuer's key and has the exact layout *)
+  Theorem honest_type5_tokens : forall k challenge keyid nonce,
+    let t := tok5 F fmul h256 h2g fin k challenge keyid nonce in
+    verify (full_evaluate F fmul h2g fin k) t = true /\
+    enc_token t = u16 5 ++ nonce ++ h256 challenge ++ keyid ++ t_auth t /\ length (t_auth t) = 64%nat.
+  Proof.
+    intros k challenge keyid nonce t. split; [|split; [reflexivity|apply fin_len]].
+    apply TokenVerifyP.verify_iff_l. reflexivity.
+  Qed.
+End Type5.
+Print Assumptions honest_type5.
+Print Assumptions honest_type5_tokens.
+
+(** the SHA-256 of Base/Hash.v satisfies the length law for every message, so [h256] can be instantiated with it *)
+Theorem sha256_output_length : forall m, length (Hash.sha256 m) = 32%nat.
+Proof. exact HashP.sha256_length. Qed.
+Print Assumptions sha256_output_length.
+
+(** ** type 0x0003, composed from the models that are run against the code: C04 request codecs, C20 padding through
+    the issuer's own unpadding loop, the issuer's Evaluate (C07 model) and the client's FinalizeToken (C02 model).
+    For EVERY primitives (HPKE, signature, blind signing + response sealing, AEAD, RSA finalization, PSS) satisfying
+    the named correctness laws, every well-formed request, every origin name not ending in a zero byte that is
+    registered: the run completes and the token is type || nonce || context || key id || the 256-byte signature. *)
+From PatVerif Require Import Model.RateLimited Proofs.RateLimitedP Proofs.FinalizeP.
+Theorem honest_type3 : forall hpke_open cfg_prefix issuer_key_id parse_pk sig_verify registered sign_and_seal
+                              aead_open rsa_finalize pss_ok r keyid0 bm name secret rnonce ct brk bs sg ty nonce ctx keyid,
+  wf_req3 r -> (32 <= length (q3_enc r))%nat ->
+  ends_nonzero name -> registered name = true -> fits16 (pad name) = true ->
+  keyid0 < 256 -> length bm = 256%nat ->
+  hpke_open (firstn 32 (q3_enc r)) (aad cfg_prefix issuer_key_id (q3_key r)) (skipn 32 (q3_enc r))
+    = Some (enc_inner (inner_for keyid0 bm name), secret) ->                                    (* HPKE correctness *)
+  parse_pk (q3_key r) = true -> sig_verify (q3_key r) (signed_message r) (q3_sig r) = true ->     (* honest signature *)
+  sign_and_seal r (inner_for keyid0 bm name) secret = Some (rnonce ++ ct, brk) -> length rnonce = 16%nat ->
+  aead_open (firstn 32 (q3_enc r) ++ rnonce) ct = Some bs ->                                      (* AEAD correctness *)
+  rsa_finalize bs = Some sg -> length sg = 256%nat ->                                             (* RSA unblinding *)
+  ty < 65536 -> length nonce = 32%nat -> length ctx = 32%nat -> length keyid = 32%nat ->
+  pss_ok (tok_input ty nonce ctx keyid) sg = true ->                                              (* PSS consistency *)
+  run3 hpke_open cfg_prefix issuer_key_id parse_pk sig_verify registered sign_and_seal aead_open rsa_finalize pss_ok
+       r (tok_input ty nonce ctx keyid)
+    = Ok {| t_type := ty; t_nonce := nonce; t_ctx := ctx; t_keyid := keyid; t_auth := sg |}.
+Proof. exact honest_type3_l. Qed.
+Print Assumptions honest_type3.
